@@ -125,7 +125,9 @@ def run_length(case):
     k = i % 9
     t = rng.choice(INTS + ["bool", "char8"])
     e = length_exprs(k, rng)
-    decls = ["const N: usize = %s;" % e, "const M: usize = %d;" % (k + 1), "const M2: usize = %d;" % (3 * k)]
+    # NB: the size of an array type with a named length inside a constant's initialiser (N must be evaluated first)
+    decls = ["const N: usize = %s;" % e, "const M: usize = %d;" % (k + 1), "const M2: usize = %d;" % (3 * k),
+             "const NB: usize = |:[N]u16| + 0;"]
     rng.shuffle(decls)
     src = "\n".join(decls) + """
 fn len_view(x: []T) -> usize
@@ -156,6 +158,7 @@ fn main() -> i32
 	print!(|p|, "\\n");
 	print!(|:[N]T|, "\\n");
 	print!(|:T|, "\\n");
+	print!(NB, "\\n");
 	return: 0
 }
 """.replace("T", t)
@@ -173,6 +176,9 @@ fn main() -> i32
                     "detail": {"N": k, "observed": got, "expr": e}, "replay": replay, "cov": cov}
     if int(res[6]) != k * int(res[7]):
         return {"verdict": VIOLATED, "sig": "|:[N]T| != N * |:T|", "detail": res[:8], "replay": replay, "cov": cov}
+    if len(res) > 8 and res[8] != str(2 * k):
+        return {"verdict": VIOLATED, "sig": "|:[N]u16| in a constant's initialiser differs from 2 * N", "detail": {"N": k, "observed": res[8]},
+                "replay": replay, "cov": cov}
     if int(res[7]) != SIZES[t]:
         return {"verdict": VIOLATED, "sig": "|:T| of a primitive differs from its width", "detail": {"type": t, "observed": res[7]},
                 "replay": replay, "cov": cov}
@@ -191,10 +197,34 @@ def random_members(rng, structs):
         elif c < 0.75:
             out.append("[%d]%s" % (rng.randrange(1, 5), rng.choice(PRIMS)))
         elif structs:
-            out.append(rng.choice(structs))
+            st = rng.choice(structs)
+            # a structure member, an array of structures, an array of structures with a named length (NUM = 3, declared
+            # somewhere among the structures) or a pointer to one
+            out.append(rng.choice([st, st, "[2]" + st, "[NUM]" + st, "[NUM]" + st, "&[NUM]" + st, "[NUM]" + rng.choice(PRIMS)]))
         else:
             out.append(rng.choice(PRIMS))
     return out
+
+
+def nested_named_decls(rng):
+    """Structures nested through arrays with *named* lengths whose constants form chains of their own, so that the
+    evaluation order of constants and structures matters: Outer { items: [COUNT]Mid }, Mid { cells: [ROWS]Inner, .. },
+    Inner { payload: [PAYLOAD]u8, stamp: u64 } with PAYLOAD = WORDS * 2, WORDS = .. ; returns (declarations, type to probe)."""
+    decls = []
+    chain = rng.randrange(0, 3)
+    names = ["PAYLOAD", "WORDS", "UNIT"][: chain + 1]
+    for k, nme in enumerate(names):
+        decls.append("const %s: usize = %s;\n" % (nme, "%s * 2" % names[k + 1] if k + 1 < len(names) else str(rng.randrange(1, 4))))
+    decls.append("struct Inner\n{\n\tpayload: [PAYLOAD]u8,\n\tstamp: %s,\n}\n" % rng.choice(["u64", "u16", "u8", "i32"]))
+    levels = rng.randrange(1, 3)
+    decls.append("const COUNT: usize = %s;\n" % rng.choice(["3", "2", "ROWS + 1" if levels == 2 else "2"]))
+    if levels == 2:
+        decls.append("const ROWS: usize = %d;\n" % rng.randrange(1, 3))
+        decls.append("struct Mid\n{\n\tflag: bool,\n\tcells: [ROWS]Inner,\n}\n")
+        decls.append("struct Outer\n{\n\ttag: u8,\n\titems: [COUNT]Mid,\n}\n")
+    else:
+        decls.append("struct Outer\n{\n\ttag: u8,\n\titems: [COUNT]Inner,\n}\n")
+    return decls, "Outer"
 
 
 def run_layout(case):
@@ -208,10 +238,17 @@ def run_layout(case):
         decls.append("struct %s\n{\n%s}\n" % (name, "".join("\tf%d: %s,\n" % (q, m) for q, m in enumerate(mem))))
         names.append(name)
     t = rng.choice(names + [rng.choice(PRIMS), "[3]" + rng.choice(PRIMS)])
+    if i % 3 == 2:
+        decls, t = nested_named_decls(rng)
     # the same sizes as module constants, declared anywhere among the structures (before or after what they measure)
     decls.append("struct Probe\n{\n\tm0: T,\n\tm1: T,\n\tm2: T,\n}\n".replace("T", t))
-    for cdecl in ("const SZ: usize = |:T|;\n", "const SZ5: usize = |:[5]T|;\n", "const SZP: usize = |:Probe| + 0;\n"):
+    num_decl = rng.choice(["const NUM: usize = 3;\n", "const NUM: usize = HALFNUM + 1;\nconst HALFNUM: usize = 2;\n",
+                           "const NUM: usize = |:[3]u8|;\n"])
+    for cdecl in ("const SZ: usize = |:T|;\n", "const SZ5: usize = |:[5]T|;\n", "const SZP: usize = |:Probe| + 0;\n", num_decl):
         decls.insert(rng.randrange(len(decls) + 1), cdecl.replace("T", t))
+    # declaration order means nothing in Penne: a structure may come before what it contains
+    if rng.random() < 0.6:
+        rng.shuffle(decls)
     src = "".join(decls)
     src += """fn main() -> i32
 {
